@@ -295,6 +295,10 @@ func olvmLogCode() []byte {
 
 // env: 1 store env values into slots 0..9; 2 LOG0 the same values; 3 BLOCKHASH(NUMBER-arg0) -> slot 0x20;
 // 4 BASEFEE -> slot 0x22; 5 COINBASE/DIFFICULTY/GASLIMIT/CODESIZE -> slots 0x30..; 6 probe(addr) -> slots 0x40..
+// OlvmNoGaslimit (set by profiles whose oracle exempts the block's running gas total, C06) replaces
+// GASLIMIT in generated contracts: the opcode returns the remaining block gas pool.
+var OlvmNoGaslimit = false
+
 func olvmEnvCode() []byte {
 	vals := []byte{ovCALLER, ovORIGIN, ovTIMESTAMP, ovNUMBER, ovCHAINID, ovGASPRICE, ovSELFBALANCE, ovADDRESS, ovCALLVALUE}
 	a := newOlvmAsm()
@@ -314,7 +318,11 @@ func olvmEnvCode() []byte {
 	a.push(320).push(0).op(ovLOG0, ovSTOP)
 	a.label("bhash").arg(0).op(ovNUMBER, ovSUB, ovBLOCKHASH).sstoreTo(0x20).op(ovSTOP)
 	a.label("basefee").op(ovBASEFEE).sstoreTo(0x22).op(ovSTOP)
-	a.label("ext").op(ovCOINBASE).sstoreTo(0x30).op(ovDIFFICULTY).sstoreTo(0x31).op(ovGASLIMIT).sstoreTo(0x32).op(ovCODESIZE).sstoreTo(0x33).op(ovSTOP)
+	gl := byte(ovGASLIMIT)
+	if OlvmNoGaslimit {
+		gl = ovCODESIZE
+	}
+	a.label("ext").op(ovCOINBASE).sstoreTo(0x30).op(ovDIFFICULTY).sstoreTo(0x31).op(gl).sstoreTo(0x32).op(ovCODESIZE).sstoreTo(0x33).op(ovSTOP)
 	a.label("probe").arg(0).op(ovBALANCE).sstoreTo(0x40).arg(0).op(ovEXTCODESIZE).sstoreTo(0x41).arg(0).op(ovEXTCODEHASH).sstoreTo(0x42)
 	a.push(32).push(0).push(0).arg(0).op(ovEXTCODECOPY).push(0).op(ovMLOAD).sstoreTo(0x43).op(ovSTOP)
 	return a.bytes()
@@ -1065,6 +1073,10 @@ func (st *olvmState) envOps(c *Ctx, v *olvmView, s *olvmSender) []Tx {
 	case r < 5:
 		return []Tx{st.tx(c, s, &k.Addr, value, olvmData(2), 200000, "OLVM/env-log", nil)}
 	case r < 6:
+		if v, _ := c.S.M["olvm-no-gaslimit"].(bool); v {
+			// GASLIMIT exposes the block's running gas total (which a failed transaction may advance)
+			return []Tx{st.tx(c, s, &k.Addr, value, olvmData(2), 200000, "OLVM/env-log", nil)}
+		}
 		return []Tx{st.tx(c, s, &k.Addr, nil, olvmData(5), 300000, "OLVM/env-ext", nil)}
 	case r < 8:
 		t := st.target(c)
